@@ -167,6 +167,9 @@ func sprigFuncNames(c *Ctx) map[string]bool {
 
 // evalTemplates runs the abstract evaluation over all roots (cached per contrib overlay).
 func (c *Ctx) evalTemplates(contrib string) (*tmpl.Evaluator, []TemplateRoot, *packages.Package) {
+	if contrib == "" {
+		contrib = c.Contrib
+	}
 	if ev, ok := c.evals[contrib]; ok {
 		return ev.ev, ev.roots, ev.gen
 	}
